@@ -47,6 +47,9 @@ RULES = {
     # a custom rule whose name is the function name of a built-in rule
     'W': {'lang': 'en', 'patterns': ['wibble {NUMBER:n}'], 'spec': {'name': 'number_of', 'kind': 'encode', 'weights': {'n': 2}}},
     'M': {'lang': 'en', 'patterns': ['{GROUP:label:hour_group} {NUMBER:n}'], 'spec': {'name': 'r11', 'kind': 'encode', 'weights': {'n': 61}}},
+    # field names that are not identifiers (a hyphen, a blank, a point, a non-ASCII letter)
+    'X': {'lang': 'en', 'patterns': ['{NUMBER:unit-price} pieces {NUMBER:list price}'], 'spec': {'name': 'r21', 'kind': 'encode', 'weights': {'unit-price': 100, 'list price': 1}}},
+    'Y': {'lang': 'tr', 'patterns': ['{NUMBER:birim.fiyat} adet {PERCENT:iskonto oranı}'], 'spec': {'name': 'r22', 'kind': 'encode', 'weights': {'birim.fiyat': 100, 'iskonto oranı': 1}}},
 }
 
 DATE_RULES = {
@@ -88,6 +91,8 @@ def probes():
     out.append(('en', '2 hours nap', '{DURATION:d} nap', {'d': 7200}))
     out.append(('en', 'march report', '{MONTH:m} report', {'m': 3}))
     out.append(('en', 'wibble 21', 'wibble {NUMBER:n}', {'n': 21}))
+    out.append(('en', '3 pieces 4', '{NUMBER:unit-price} pieces {NUMBER:list price}', {'unit-price': 3, 'list price': 4}))
+    out.append(('tr', '3 adet %4', '{NUMBER:birim.fiyat} adet {PERCENT:iskonto oranı}', {'birim.fiyat': 3, 'iskonto oranı': 4}))
     out.append(('en', '10% of 200', '(built-in)', {}))
     out.append(('tr', 'çay 3', 'çay {NUMBER:n}', {'n': 3}))
     out.append(('tr', 'ÇAY 3', 'çay {NUMBER:n}', {'n': 3}))
